@@ -68,18 +68,15 @@ Definition SIS_homogeneous_meanfield_from_graph (g : graph) (rq : icreq) (sv : s
             | Some l, _ => len l | None, Some r => r * gN g | None, None => 1 end in
   Ok (SIS_homogeneous_meanfield (gN g - I0) I0 sv).
 
-(* analytic.py:1912-1929: on the rho / default path initial_recovereds is still None at len() *)
+(* analytic.py:1915-1931: initial_recovereds defaults to [] on every path; R0 = len(initial_recovereds) *)
 Definition SIR_homogeneous_meanfield_from_graph (g : graph) (rq : icreq) (sv : solver) : result output :=
   if isSome (rq_rho rq) && isSome (rq_I rq) then Err EoNError else
   if isSome (rq_rho rq) && isSome (rq_R rq) then Err EoNError else
-  let '(I0, R) := match rq_I rq, rq_rho rq with
-                  | Some l, _ => (len l, Some (match rq_R rq with None => [] | Some r => r end))
-                  | None, Some r => (r * gN g, rq_R rq)
-                  | None, None => (1, rq_R rq) end in
-  match R with
-  | None => Err TypeErr                                   (* len(None) *)
-  | Some r => let R0 := len r in Ok (SIR_homogeneous_meanfield (gN g - I0 - R0) I0 R0 sv)
-  end.
+  let R := match rq_R rq with None => [] | Some r => r end in
+  let I0 := match rq_I rq, rq_rho rq with
+            | Some l, _ => len l | None, Some r => r * gN g | None, None => 1 end in
+  let R0 := len R in
+  Ok (SIR_homogeneous_meanfield (gN g - I0 - R0) I0 R0 sv).
 
 (* =====================  homogeneous pairwise  ===================== *)
 Definition SIS_homogeneous_pairwise (S0 I0 SI0 SS0 n : Q) (full : bool) (sv : solver) : result output :=
@@ -157,10 +154,9 @@ Definition SIS_heterogeneous_meanfield_from_graph (g : graph) (rq : icreq) (full
   rbind (get_Nk_and_IC g (mkReq (rq_I rq) None (rq_rho rq)) false) (fun ic =>
     SIS_heterogeneous_meanfield (nk_Sk ic) (nk_Ik ic) full sv).
 
-(* analytic.py:2668: return_full_data=False is forwarded whatever the caller asked for *)
 Definition SIR_heterogeneous_meanfield_from_graph (g : graph) (rq : icreq) (full : bool) (sv : solver) : result output :=
   rbind (get_Nk_and_IC g rq true) (fun ic =>
-    SIR_heterogeneous_meanfield (nk_Sk ic) (nk_Ik ic) (nk_Rk ic) false sv).
+    SIR_heterogeneous_meanfield (nk_Sk ic) (nk_Ik ic) (nk_Rk ic) full sv).
 
 (* =====================  heterogeneous pairwise  ===================== *)
 Definition SIS_heterogeneous_pairwise (Sk0 Ik0 : vec) (SkSl0 SkIl0 IkIl0 : list vec) (full : bool) (sv : solver) : result output :=
@@ -169,19 +165,28 @@ Definition SIS_heterogeneous_pairwise (Sk0 Ik0 : vec) (SkSl0 SkIl0 IkIl0 : list 
   let x := sv (Sk0 ++ flatten SkSl0 ++ flatten SkIl0) in
   let Sk := slc x 0 kcount in
   let Ik := fun t => vsub Nk (Sk t) in
-  if full then Err NameErr                                    (* kcaount, analytic.py:2930 *)
+  (* analytic.py:2934-2938, full data: IkIl = NkNl - SkSl - SkIl - SkIl.T subtracts (kcount,kcount,tcount) arrays from the
+     (kcount,kcount) array NkNl: numpy raises ValueError (shapes do not broadcast) for kcount >= 2 (tcount <> kcount); for
+     kcount = 1 it broadcasts, and SkIl.T reverses all three axes, so the IkIl slot holds a (tcount,1,tcount) array that is
+     not a time series; the model returns the other series and leaves that slot out *)
+  if full then
+    if Nat.leb 2 kcount then Err ValueErr
+    else
+      let SkSl := slc x kcount (kcount + kcount * kcount) in
+      let SkIl := sfrom x (kcount + kcount * kcount) in
+      Ok [(nS, Sc (vsumt Sk)); (nI, Sc (vsumt Ik)); (nSk, Ve Sk); (nIk, Ve Ik);
+          (nSkIl, Ma (fun t => reshape kcount kcount (SkIl t))); (nSkSl, Ma (fun t => reshape kcount kcount (SkSl t)))]
   else Ok [(nS, Sc (vsumt Sk)); (nI, Sc (vsumt Ik))].
 
-(* analytic.py:3034-3044: X0 packs Sk0, Ik0, SkSl0, SkIl0; the result names the first
-   matrix block SkIl and the second SkSl *)
+(* analytic.py:3034-3052: X0 packs Sk0, Ik0, SkSl0, SkIl0 and is unpacked in the same order; returned ..., SkIl, SkSl *)
 Definition SIR_heterogeneous_pairwise (Sk0 Ik0 Rk0 : vec) (SkSl0 SkIl0 : list vec) (Ks : list nat) (full : bool) (sv : solver) : result output :=
   let Nk := vadd (vadd Sk0 Ik0) Rk0 in
   let kcount := length Ks in
   let x := sv (Sk0 ++ Ik0 ++ flatten SkSl0 ++ flatten SkIl0) in
   let Sk := slc x 0 kcount in
   let Ik := slc x kcount (2 * kcount) in
-  let SkIl := slc x (2 * kcount) (2 * kcount + kcount * kcount) in
-  let SkSl := slc x (2 * kcount + kcount * kcount) (2 * kcount + 2 * (kcount * kcount)) in
+  let SkSl := slc x (2 * kcount) (2 * kcount + kcount * kcount) in
+  let SkIl := slc x (2 * kcount + kcount * kcount) (2 * kcount + 2 * (kcount * kcount)) in
   let Rk := fun t => vsub (vsub Nk (Sk t)) (Ik t) in
   Ok ([(nS, Sc (vsumt Sk)); (nI, Sc (vsumt Ik)); (nR, Sc (vsumt Rk))] ++
       (if full then [(nSk, Ve Sk); (nIk, Ve Ik); (nRk, Ve Rk);
@@ -216,11 +221,11 @@ Definition SIS_compact_pairwise (Sk0 Ik0 : vec) (SI0 SS0 II0 : Q) (full : bool) 
   [(nS, Sc (vsumt Sk)); (nI, Sc (vsumt Ik))] ++
   (if full then [(nSk, Ve Sk); (nIk, Ve Ik); (nSI, Sc SI); (nSS, Sc SS); (nII, Sc (fun t => twoM - SS t - 2 * SI t))] else []).
 
-(* analytic.py:3403-3411: X0 = Sk0, SS0, SI0, R0 but `SI, SS, R = X.T[-3:]` *)
+(* analytic.py:3409-3417: X0 = Sk0, SS0, SI0, R0; `SS, SI, R = X.T[-3:]` *)
 Definition SIR_compact_pairwise (Sk0 : vec) (I0 R0 SS0 SI0 : Q) (full : bool) (sv : solver) : output :=
   let N := I0 + R0 + vsum Sk0 in
   let x := sv (Sk0 ++ [SS0; SI0; R0]) in
-  let SI := tlast x 3 0 in let SS := tlast x 3 1 in let R := tlast x 3 2 in
+  let SS := tlast x 3 0 in let SI := tlast x 3 1 in let R := tlast x 3 2 in
   let Sk := dlast x 3 in
   let S := vsumt Sk in
   let I := fun t => N - R t - S t in
@@ -284,7 +289,7 @@ Definition SIR_super_compact_pairwise (R0 SS0 SI0 N : Q) (psihat : Q -> Q) (full
   [(nS, Sc S); (nI, Sc (fun t => N - S t - R t)); (nR, Sc R)] ++
   (if full then [(nSS, Sc (comp x 1)); (nSI, Sc (comp x 2))] else []).
 
-(* analytic.py:3766-3769: II0 = np.dot(Nk,ks) - SX0 on the rho path *)
+(* analytic.py:3772-3775: rho path SS0 = (1-rho) SX0, SI0 = rho SX0, II0 = rho*rho*np.dot(Nk,ks) *)
 Definition SIS_super_compact_pairwise_from_graph (g : graph) (rq : icreq) (full : bool) (sv : solver) : result output :=
   if isSome (rq_rho rq) && isSome (rq_I rq) then Err EoNError else
   rbind (get_Nk_and_IC g (mkReq (rq_I rq) None (rq_rho rq)) false) (fun ic =>
@@ -298,7 +303,7 @@ Definition SIS_super_compact_pairwise_from_graph (g : graph) (rq : icreq) (full 
     | None =>
       let rho := rho_or_default g (rq_rho rq) in
       let SX0 := dot (nk_Sk ic) ks in
-      Ok (SIS_super_compact_pairwise S0 I0 ((1 - rho) * SX0) (rho * SX0) (dot (nk_Nk ic) ks - SX0) full sv)
+      Ok (SIS_super_compact_pairwise S0 I0 ((1 - rho) * SX0) (rho * SX0) (rho * rho * dot (nk_Nk ic) ks) full sv)
     end).
 
 (* sum(f(k) for k in Pk) over the distinct degrees *)
@@ -377,14 +382,13 @@ Definition SIS_effective_degree_from_graph (g : graph) (rq : icreq) (full : bool
     Ok (SIS_effective_degree (sqmat g (ed_rho_entry g (1 - rho) rho)) (sqmat g (ed_rho_entry g rho rho)) full sv)
   end end.
 
-(* analytic.py:4278: initial_recovereds is not handed to _initialize_node_status_ *)
 Definition SIR_effective_degree_from_graph (g : graph) (rq : icreq) (full : bool) (sv : solver) : result output :=
   if isSome (rq_rho rq) && isSome (rq_I rq) then Err EoNError else
   if isSome (rq_rho rq) && isSome (rq_R rq) then Err EoNError else
   match gnodes g with [] => Err ValueErr | _ =>
   match rq_I rq with
   | Some I0l =>
-    rbind (initialize_node_status g I0l None) (fun st =>
+    rbind (initialize_node_status g I0l (rq_R rq)) (fun st =>
       let Ssi0 := sqmat g (fun s i => cnt (fun u => isS st u && Nat.eqb (nbr_count g (isS st) u) s
                                                   && Nat.eqb (nbr_count g (isI st) u) i) (gnodes g)) in
       let I0 := cnt (isI st) (gnodes g) in
